@@ -6,7 +6,7 @@ import numpy as np
 
 RULE = ("K: scenes built with the real place_objects (reduced shape 3..6 per axis plus thin axes of 1..2 cells; per-axis boundary "
         "pairs periodic/periodic, pec/pmc, pml/pml, pmc/pec, periodic/pml (mixed), pml/periodic; config.symmetry entries in "
-        "{-1,0,+1}; UniformGrid, explicit uniform RectilinearGrid, non-uniform RectilinearGrid with random widths); in every "
+        "{-1,0,+1}, every symmetric scene with an electric plane on x or y (alternating); UniformGrid, explicit uniform RectilinearGrid, non-uniform RectilinearGrid with random widths); in every "
         "scene one FieldDetector per contact class (low face / interior / high face per axis = 27 classes where the axis "
         "length allows, plus full-span and single-cell boxes), exact_interpolation True and False, random component subsets, "
         "one inverse detector; random binary64 E, H, H_prev. Observed: (a) jitted update_detector_states (forward and inverse "
@@ -264,8 +264,9 @@ def gen_scene(rng, i, small=False):
     if i % 3 == 1:
         for a in range(3):
             sym[a] = rng.choice([-1, -1, 0, 1])
-        if sym == [0, 0, 0]:
-            sym[rng.randint(0, 2)] = -1
+        # the co-location stencil reads the low halo along x and y only: every symmetric scene has an ELECTRIC plane on x or y
+        # (alternating), so detectors touching it record H (and E) through the mirror halo
+        sym[(i // 3) % 2] = -1
     kinds = [list(rng.choice(PAIRS)) for _ in range(3)]
     if i % 5 == 0:
         kinds[rng.randint(0, 2)] = ["periodic", "periodic"]
